@@ -129,7 +129,7 @@ def _slide(w, dim, tier):
 _slide(1, 1, "quick")
 _slide(2, 2, "quick")
 _slide(3, 1, "quick")
-_slide(5, 2, "thorough")
+_slide(4, 1, "thorough")  # (window 5 with a 2-dimensional current step: 4 676 obligation instances, 40 min - beyond the thorough budget; longer windows through the bounded stand-in)
 
 
 def _fade(dim):
